@@ -13,7 +13,7 @@ From Common Require Import Outcome.
 From Gen Require Import C12B.
 From C12 Require Import Codec Util Model Model2 Model3 Proofs_hmtx Proofs_derived.
 From C12 Require Props.
-From C12B Require Import Model Spec Proofs_box Proofs_pdf Proofs_font Proofs_refuted Tie Proofs_props.
+From C12B Require Import Model Spec Proofs_box Proofs_pdf Proofs_font Proofs_refuted Tie Proofs_props Proofs_cfont.
 Import ListNotations.
 
 Local Open Scope Q_scope.
@@ -418,6 +418,80 @@ Theorem glyphname_short_names_old_refuted :
                 M_glyf_glyph_name_old f gid = Panic /\ M_glyf_glyph_name f gid = Ok None.
 Proof. exact glyphname_old_refuted_w. Qed.
 Print Assumptions glyphname_short_names_old_refuted.
+
+(* ================================================================== *)
+(* (7) the CFF package's own queries: cff.Font, cff.Outlines           *)
+
+(* For EVERY cff.Font value (simple or CID-keyed, well-formed or not), compared
+   with the sfnt.Font that wraps the same Outlines with the same FontMatrix:
+   Widths, GlyphWidthPDF, WidthsMapPDF and FontBBoxPDF are the same functions
+   (FontBBoxPDF tests the accumulator instead of a `first` flag, which is what
+   rect.Extend does anyway); WidthsPDF differs BY DOCUMENTED UNIT: cff.Font
+   returns PDF glyph space units, sfnt.Font text space units - entry for entry
+   cff = 1000 x sfnt, and one panics exactly when the other does. *)
+Theorem cff_font_queries_agree :
+  forall f : cff_font,
+    M_cfont_widths f = M_cff_widths f /\
+    (forall gid, M_cfont_glyph_width_pdf f gid = M_cff_glyph_width_pdf f gid) /\
+    M_cfont_widths_map_pdf f = M_cff_widths_map_pdf f /\
+    M_cfont_font_bbox_pdf f = M_cff_font_bbox_pdf f /\
+    ((M_cfont_widths_pdf f = Panic /\ M_cff_widths_pdf f = Panic) \/
+     (exists xs ys, M_cfont_widths_pdf f = Ok xs /\ M_cff_widths_pdf f = Ok ys /\
+                    Forall2 (fun x y => x == 1000 * y) xs ys)).
+Proof. exact cff_font_queries_agree_stmt. Qed.
+Print Assumptions cff_font_queries_agree.
+
+(* Outlines.BBox is Font.FontBBox of the wrapping font: the union of the
+   non-zero glyph Extents (C12.fontbbox_union, through font_bbox_def) *)
+Theorem outlines_bbox_def :
+  forall f : cff_font,
+    M_outlines_bbox f = M_cff_font_bbox f /\
+    (cff_wf f -> glyphs_fit f ->
+       M_outlines_bbox f = Ok (S_fontbbox (cff_boxes f)) /\ Forall proper (cff_boxes f)).
+Proof. exact outlines_bbox_def_stmt. Qed.
+Print Assumptions outlines_bbox_def.
+
+(* BuiltinEncoding: nil unless the Encoding has exactly 256 entries (nil and
+   short / long slices alike); otherwise 256 names, entry i = ".notdef" when
+   Encoding[i] is 0 or not a glyph of the font, else that glyph's name *)
+Theorem builtin_encoding_def :
+  forall (enc : list nat) (glyphs : list glyph),
+    ((length enc <> 256)%nat -> M_builtin_encoding enc glyphs = None) /\
+    ((length enc = 256)%nat ->
+       exists l, M_builtin_encoding enc glyphs = Some l /\ length l = 256%nat /\
+         forall i gid, nth_error enc i = Some gid ->
+           (gid = 0%nat \/ (length glyphs <= gid)%nat -> nth_error l i = Some notdef_name) /\
+           (forall g, gid <> 0%nat -> nth_error glyphs gid = Some g -> nth_error l i = Some (g_name g))).
+Proof. exact builtin_encoding_gen. Qed.
+Print Assumptions builtin_encoding_def.
+
+(* Clone, over a store of structs and referenced objects: the clone's two
+   structs are NEW locations holding copies of the fields - the clone shows
+   what the original shows, the original is untouched, and assigning any field
+   of the clone (scalar, array or reference) leaves the original unchanged -
+   while every reference (slice, map, pointer, func) is the SAME reference: an
+   element written through the clone is seen through the original.  An
+   array-valued field (FontMatrix [6]float64) is part of the struct, hence
+   private. *)
+Theorem clone_is_shallow :
+  forall (s : store) (f : cfont_ptr),
+    (p_info f < length (st_structs s))%nat -> (p_outl f < length (st_structs s))%nat ->
+    let s' := fst (M_clone s f) in
+    let f' := snd (M_clone s f) in
+    (p_info f' <> p_info f /\ p_info f' <> p_outl f /\ p_outl f' <> p_info f /\ p_outl f' <> p_outl f) /\
+    (cfont_observe s' f' = cfont_observe s f /\ cfont_observe s' f = cfont_observe s f) /\
+    (forall loc field v, loc = p_info f' \/ loc = p_outl f' ->
+       cfont_observe (st_assign s' loc field v) f = cfont_observe s f) /\
+    (forall field r j x,
+       nth_error (st_struct s (p_outl f)) field = Some (FRef r) -> (r < length (st_objs s))%nat ->
+       nth_error (st_struct s' (p_outl f')) field = Some (FRef r) /\
+       nth_error (st_observe (st_write_elem s' (p_outl f') field j x) (p_outl f)) field =
+         Some (OObj r (list_set (nth r (st_objs s) []) j x))) /\
+    (forall field l j x,
+       nth_error (st_struct s (p_info f)) field = Some (FArray l) ->
+       cfont_observe (st_write_elem s' (p_info f') field j x) f = cfont_observe s f).
+Proof. exact clone_is_shallow_stmt. Qed.
+Print Assumptions clone_is_shallow.
 
 (* ================================================================== *)
 (* the checker of the correspondence run, and the translator tie       *)
